@@ -247,13 +247,16 @@ def check(ctx):
                  '%s notifies on change and stores the flag' % setter)
 
     drops = [n for n in g.nodes if n.kind == 'stmt' and ((isinstance(n.ast, ast.Assign) and norm(n.ast.targets[0]) == 'self.log_blocks') or
-                                                       (isinstance(n.ast, ast.Expr) and method_call(n.ast.value, 'clear') and norm(n.ast.value.func.value) == 'self.log_blocks'))]
+                                                       (isinstance(n.ast, ast.Expr) and isinstance(n.ast.value, ast.Call) and isinstance(n.ast.value.func, ast.Attribute) and
+                                                        n.ast.value.func.attr in ('clear', 'remove', 'pop') and norm(n.ast.value.func.value) == 'self.log_blocks') or
+                                                       (isinstance(n.ast, ast.Delete) and any(norm(t).startswith('self.log_blocks') for t in n.ast.targets)))]
     tocs = [n for n in g.nodes if n.kind == 'stmt' and isinstance(n.ast, ast.Assign) and norm(n.ast.targets[0]) == 'self.toc' and norm(n.ast.value) == 'Toc()']
     ok = len(drops) == 1 and len(tocs) == 1 and g.fact_keys_at(drops[0]) == g.fact_keys_at(tocs[0]) and fact_key('self.toc', False) in g.fact_keys_at(drops[0]) and \
         fact_key('cmd == CMD_RESET_LOGGING', True) in g.fact_keys_at(drops[0])
     ctx.inst('R6', cb, 'blocks-dropped-only-with-toc-download', ok,
              'live blocks may be forgotten only by the first reset acknowledgement of a connection (the one that starts the TOC download, `not self.toc`); a duplicated or '
-             'late reset reply must not drop blocks added since')
+             'late reset reply must not drop blocks added since, and a deleted block stays known (the same configuration can be created again); sites that drop blocks: %s'
+             % [norm(n.ast)[:50] for n in drops])
 
     # ---- R7 ---------------------------------------------------------------------------------------
     # the decode call of a data packet; every argument is read back through the locals that carry it (whatever they are called)
